@@ -200,3 +200,104 @@ Fixpoint fms_ok (m : smap) (ops : list (op val)) (os : list obs) : bool :=
       | _ => true
       end && fms_ok (sm_step m o) ops' (tl os)
   end.
+
+(* ====== the caller: one proxy-neighbour manager per node (Model.pnm) ================================= *)
+Inductive nop := NMsg (m : hmsg) | NSelect (ip : key) | NComplete.
+Inductive nobs := NODirty (d : bool) | NOSel (b : bool).
+
+(* what a message means for the member set of a manager of the given IP family *)
+Definition rops_of_msg (v6 : bool) (m : hmsg) : list (op val) :=
+  match m with
+  | HUpdate h a4 a6 => match (if v6 then a6 else a4) with [] => [] | _ :: _ => [OInsert h h] end
+  | HRemove h => [ORemove h]
+  end.
+Definition rops_of (v6 : bool) (o : nop) : list (op val) :=
+  match o with NMsg m => rops_of_msg v6 m | NSelect ip => [OLookup ip] | NComplete => [] end.
+(* the hosts (with an address of the family) a node knows after its message history *)
+Definition hosts_after (v6 : bool) (ops : list nop) : smap := sm_of (flat_map (rops_of v6) ops).
+
+(* the model node after a history, its observations, and its answer to "do I own ip?" *)
+Definition node_step (h : list N -> N) (m : pnm) (o : nop) : pnm * nobs :=
+  match o with
+  | NMsg msg => let m' := pnm_update h m msg in (m', NODirty (p_dirty m'))
+  | NSelect ip => let (m', b) := pnm_select h m ip in (m', NOSel b)
+  | NComplete => let m' := pnm_complete m in (m', NODirty (p_dirty m'))
+  end.
+Fixpoint node_run (h : list N -> N) (m : pnm) (ops : list nop) : pnm * list nobs :=
+  match ops with
+  | [] => (m, [])
+  | o :: ops' => let (m1, b) := node_step h m o in let (m2, bs) := node_run h m1 ops' in (m2, b :: bs)
+  end.
+Definition node_after (h : list N -> N) (v6 : bool) (host : key) (ops : list nop) : pnm :=
+  fst (node_run h (pnm_new v6 host) ops).
+Definition node_selects (h : list N -> N) (v6 : bool) (host : key) (ops : list nop) (ip : key) : bool :=
+  snd (pnm_select h (node_after h v6 host ops) ip).
+Fixpoint node_finals (h : list N -> N) (m : pnm) (ips : list key) : list bool :=
+  match ips with
+  | [] => []
+  | ip :: ips' => let (m', b) := pnm_select h m ip in b :: node_finals h m' ips'
+  end.
+
+Record node := { n_v6 : bool; n_host : key; n_ops : list nop; n_obs : list nobs; n_final : list bool }.
+Record ncase := { nc_gtbl : list (key * list N); nc_ips : list key; nc_nodes : list node }.
+
+(* oracle, per node: a change of the member set must raise dirty (else the node would not re-elect);
+   CompleteDeferredWork clears it; a node that answers "mine" is itself a current member *)
+Definition has_host (S : smap) (k : key) : bool := existsb (fun kv => key_eqb k (fst kv)) S.
+Fixpoint ok_node_trace (v6 : bool) (host : key) (S : smap) (ops : list nop) (os : list nobs) : bool :=
+  match ops, os with
+  | [], [] => true
+  | o :: ops', b :: os' =>
+      let S' := fold_left sm_step (rops_of v6 o) S in
+      match o, b with
+      | NMsg _, NODirty d => (Nat.eqb (length S') (length S) || d) && ok_node_trace v6 host S' ops' os'
+      | NSelect _, NOSel sel => (negb sel || has_host S host) && ok_node_trace v6 host S' ops' os'
+      | NComplete, NODirty d => negb d && ok_node_trace v6 host S' ops' os'
+      | _, _ => false
+      end
+  | _, _ => false
+  end.
+
+(* oracle, across nodes: among the nodes of one family whose final member sets are the same, for every
+   address at most one hostname answers "mine", it is a member, and if every member is one of those
+   nodes (and there is a member) then somebody does answer *)
+Definition same_group (a b : node) : bool :=
+  Bool.eqb (n_v6 a) (n_v6 b) && enumerates (hosts_after (n_v6 a) (n_ops a)) (hosts_after (n_v6 b) (n_ops b)).
+Definition ok_group (ns : list node) (nips : nat) (a : node) : bool :=
+  let S := hosts_after (n_v6 a) (n_ops a) in
+  let g := filter (same_group a) ns in
+  let all_here := forallb (fun kv => existsb (fun n => key_eqb (fst kv) (n_host n)) g) S in
+  forallb (fun j =>
+      let sel := filter (fun n => nth j (n_final n) false) g in
+      forallb (fun x => forallb (fun y => key_eqb (n_host x) (n_host y)) sel) sel
+      && forallb (fun x => has_host S (n_host x)) sel
+      && (negb all_here || match S with [] => true | _ :: _ => match sel with [] => false | _ :: _ => true end end))
+    (seq 0 nips).
+Definition ok_nodes (c : ncase) : bool :=
+  forallb (fun n => ok_node_trace (n_v6 n) (n_host n) [] (n_ops n) (n_obs n)
+                    && Nat.eqb (length (n_final n)) (length (nc_ips c))
+                    && ok_group (nc_nodes c) (length (nc_ips c)) n) (nc_nodes c).
+
+Definition nobs_eqb (a b : nobs) : bool :=
+  match a, b with
+  | NODirty x, NODirty y => Bool.eqb x y
+  | NOSel x, NOSel y => Bool.eqb x y
+  | _, _ => false
+  end.
+Fixpoint list_eqb {A : Type} (eqb : A -> A -> bool) (a b : list A) : bool :=
+  match a, b with
+  | [], [] => true
+  | x :: a', y :: b' => eqb x y && list_eqb eqb a' b'
+  | _, _ => false
+  end.
+Definition check_ncase (c : ncase) : bool * bool :=
+  let h := map_hash (tbl_map [] (nc_gtbl c)) in
+  (forallb (fun n =>
+      let (m, os) := node_run h (pnm_new (n_v6 n) (n_host n)) (n_ops n) in
+      list_eqb nobs_eqb os (n_obs n) && list_eqb Bool.eqb (node_finals h m (nc_ips c)) (n_final n)) (nc_nodes c),
+   ok_nodes c).
+
+(* what the driver emits: a ring case or a nodes case *)
+Inductive acase := CRing (c : case) | CNodes (c : ncase).
+Definition check_any (c : acase) : bool * bool :=
+  match c with CRing c => check_case c | CNodes c => check_ncase c end.
